@@ -5,10 +5,10 @@ F200: polling driver + blocking pipe descriptors: a `write` on the child's stdin
       thread until the whole chunk is in the pipe; with an echoing child and more bytes in one write
       than stdin pipe + child buffer + stdout pipe hold, the reader of stdout can never run: deadlock.
       (Props.concurrent_complete is the same scenario with `blocking = false`: always finishes.)
-F201: `Child::wait(self)` / `wait_with_output(self)` close a still-contained `stdin` only when they
-      return (plan `held`); a child that reads to end of file never exits, the wait never returns.
-      (`std::process` closes stdin before waiting: that is plan `conc`/`drainWait` with an empty payload,
-      covered by Props.concurrent_complete.)
+F201 (REPAIRED in /repo 61828f8; the witnesses are about the behaviour before the repair, plan
+      `heldUnfixed`): `Child::wait(self)` / `wait_with_output(self)` closed a still-contained `stdin` only
+      when they returned; a child that reads to end of file never exits, the wait never returns.
+      The repaired code drops stdin first, like `std::process` (plan `held`): Props.wait_closes_stdin_first.
 -/
 import Compio.Lemmas.ChildIo
 
@@ -43,8 +43,9 @@ theorem F200_witness_uring :
     s.completed = true ∧ s.rout = [1, 2, 3, 4] ∧ s.wt = .done (.exited 0) := by
   decide
 
-/-- F201, all sizes: the writer's close waits for the wait (`stdin` is still inside the `Child`), the child
-reads to end of file: no schedule finishes, the wait never completes, the child never exits. -/
+/-- F201 (before the repair), all sizes: the writer's close waits for the wait (`stdin` is still inside the
+`Child`; `Plan.heldUnfixed` is such a plan), the child reads to end of file: no schedule finishes, the wait
+never completes, the child never exits. -/
 theorem F201_counterexample {c : Cfg} {blk : Nat} {dst : Dst} {tail : List CAct} {payload : Bytes} {es : List Ev}
     {s : St} (hheld : c.plan.deps .W .Wt = true)
     (hr : run c (init (.copy none blk dst :: tail) payload false) es = some s) :
@@ -54,16 +55,20 @@ theorem F201_counterexample {c : Cfg} {blk : Nat} {dst : Dst} {tail : List CAct}
   have := heldStuck_run hk hheld hr
   exact ⟨by simp [St.completed, this.open_], this.notWaited, this.alive⟩
 
-/-- F201, concrete: `cat` with `child.wait().await` and nothing else: stuck after the wait has started -/
+/-- `Plan.heldUnfixed` satisfies the hypothesis of `F201_counterexample` -/
+theorem F201_unfixed_plan : Plan.heldUnfixed.deps .W .Wt = true := rfl
+
+/-- F201 (before the repair), concrete: `cat` with `child.wait().await` and nothing else: stuck after the
+wait has started -/
 theorem F201_witness :
-    let c : Cfg := { exCfg with plan := .held, pidfd := false }
+    let c : Cfg := { exCfg with plan := .heldUnfixed, pidfd := false }
     let s := runCanon c 100 (init [.copy none 4 .out, .exit 0] [] false)
     (next c s).isNone = true ∧ s.completed = false ∧ s.wt = .started ∧ s.wclosed = false ∧ s.status = none := by
   decide
 
-/-- what `std::process::Child::wait` does — close stdin first — finishes -/
-theorem F201_witness_std_order :
-    let c : Cfg := { exCfg with plan := .drainWait, pidfd := false }
+/-- what `std::process::Child::wait` does, and compio since the repair — close stdin first — finishes -/
+theorem F201_witness_repaired :
+    let c : Cfg := { exCfg with plan := .held, pidfd := false }
     let s := runCanon c 100 (init [.copy none 4 .out, .exit 0] [] false)
     s.completed = true ∧ s.wt = .done (.exited 0) := by
   decide
